@@ -149,7 +149,7 @@ CHECKS = {
     ),
     'C10': dict(
         ref='5.10',
-        text='Theorems in coq/Properties/C10.v (partial): for EVERY text and the FINAL copyright object (after renaming of '
+        text='Theorems in coq/Properties/C10.v: for EVERY text and the FINAL copyright object (after renaming of '
              'duplicates, merging of unknown paragraphs and folding of free text into an empty license) the ranges recorded for '
              'fields with a non-empty value, read paragraph after paragraph in the order of line_numbers_by_field, are strictly '
              'increasing and disjoint (end of one < start of the next), lie within 1..#lines with start <= end, and each starts on '
@@ -164,13 +164,16 @@ CHECKS = {
              'the merged ones (smallest start, largest end, both attained); a folded license runs from its License field, or the '
              'start of the unknown paragraph, to the end of the unknown paragraph. and for EVERY text and the FINAL object every word of '
              'the value of a field stands on a numbered source line inside the range recorded for that field '
-             '(C10_words_in_range: typed values, renamed extras, merged unknown paragraphs, folded licenses). NOT proved: '
-             'the shift law for texts holding a paragraph in which no field has a value; decided by co-execution of the complete model '
-             '(ranges included) with copyright.py on texts biased to the recovery paths, each also with 1/2/5 blank lines '
-             'prepended, and by the executable statement (bounds, non-blank ends, words inside the range, disjoint and '
-             'increasing, shift).',
+             '(C10_words_in_range: typed values, renamed extras, merged unknown paragraphs, folded licenses); and for EVERY '
+             'text k blank lines at the top leave paragraph types and dictionary forms as they are and shift the range of '
+             'every field with a non-empty value by exactly k (C10_shift_every_text: a relational invariant through merge '
+             'and fold; paragraphs in which no field has a value record no true range and whatever is recorded for them '
+             'belongs to no value). Tie to the code: co-execution of the complete model (ranges included) '
+             'with copyright.py on texts biased to the recovery paths, each also with 1/2/5 blank lines '
+             'prepended, and the executable statement (bounds, non-blank ends, words inside the range, disjoint and '
+             'increasing, shift, file route, observation purity).',
         note=TRUST,
-        technique='Rocq proof (partial) + differential co-execution and statement checking against the Python code',
+        technique='Rocq proof (invariants carried through merge and fold, by induction) + differential co-execution and statement checking against the Python code',
     ),
     'C11': dict(
         ref='5.11',
